@@ -126,7 +126,10 @@ class Monitors:
                     others = other_archive_healthy(c)
                     sel = self.selection.get(c.id)
                     if others < 2:
-                        interleaved = getattr(sim, "in_nested", False) or getattr(sim, "nested_ran", False)
+                        # the known window (KF-C01-1) is between the count and the unlink of one copy: the copy whose unlink the other
+                        # host's task interleaved with, or anything done by the interleaving task itself.  Later copies of the same
+                        # batch are counted afresh before their own unlink.
+                        interleaved = getattr(sim, "in_nested", False) or (getattr(sim, "nested_ran", False) and getattr(sim, "nested_trigger", None) == path)
                         sig = "C01:interleaved-deletes" if interleaved else "C01:too-few-archive-copies"
                         self.fail(sig, f"delete task on {host} unlinks {rel!r} on {node.name} while the index records {others} other healthy archive copies")
                     if sel is not None:
